@@ -16,7 +16,7 @@ RULE = ("SF-core recipes weighted toward the id mechanism (forward references by
 TRUSTED = ["harness/sfcore.py: recipe AST -> YAML / Coq printers; capture OutputStream reading .id at write time"]
 ASSUMPTIONS = ["the theorems are about the SF-core fragment (Interp.v); recipes outside it are only checked by the "
                "direct oracle on the implementation"]
-W = dict(fwd=0.5, nick=0.55, ref=0.32, zero_count=0.18, once=0.25, hidden_table=0.12, formula=0.25)
+W = dict(dual_fwd=0.25, fwd=0.5, nick=0.55, ref=0.32, zero_count=0.18, once=0.25, hidden_table=0.12, formula=0.25)
 
 
 def gen_case(rng):
